@@ -1039,6 +1039,22 @@ def check_wrapper_no_direct_stats(run, ctx, rule='C15-W2'):
                     'number of lookups' % (w.path, k, x.loc(b)), site=w.path, oracle='exactly one record per lookup, made by the cache')
         else:
             run.ok(rule, w.path, 'no statistics call in the wrapper')
+    # no generated code at all (wrappers, clear / check callbacks, registration closures) calls a CacheStats method: the counters
+    # change only through the lookups of the cache itself and through stats_registry::reset(name) called by the user
+    m = 0
+    for crate in (ctx.fx_sync, ctx.fx_async):
+        for b in crate.bodies.values():
+            role = ctx.role(b)
+            if role is None:
+                continue
+            m += 1
+            for bi, t in b.calls():
+                cn = callee_name(t)
+                if cn.startswith(N.STATS + '::') and cn.rsplit('::', 1)[-1] not in ('new', 'default'):
+                    run.bad(rule, '%s/calls-%s' % (ctx.label(b), cn.rsplit('::', 1)[-1]), 'generated code (%s, %s) calls CacheStats::%s: the statistics of a cache then change without a lookup '
+                            '(e.g. an invalidation zeroes the counters, so hits + misses no longer equals the lookups performed)' % (role, b.loc(bi), cn.rsplit('::', 1)[-1]),
+                            site='%s (%s)' % (b.name, b.loc(bi)), oracle='generated code only registers the statistics; it never records or resets')
+    run.require(rule, 'generated bodies scanned for statistics calls', m, 1000)
     return n
 
 
